@@ -73,6 +73,23 @@ def _conv_segs(it, v, to_kind, codec_name):
     return out
 
 
+def _ascii_only(v):
+    for g in v.segs:
+        if isinstance(g, Lit):
+            if not all(c < 128 for c in (g.data if isinstance(g.data, bytes) else g.data.encode('utf-8', 'replace'))):
+                return False
+        elif isinstance(g, Num):
+            continue
+        elif isinstance(g, Opq) and isinstance(g.desc, tuple) and g.desc and g.desc[0] in ('hexlify', 'upper', 'lower'):
+            if g.desc[0] != 'hexlify':
+                inner = g.desc[1]
+                if not (isinstance(inner, SeqV) and _ascii_only(inner)):
+                    return False
+        else:
+            return False
+    return True
+
+
 def seq_decode(it, v, args, kwargs, node):
     if v.kind != 'bytes':
         it.note_unknown(node, 'decode on str')
@@ -80,6 +97,10 @@ def seq_decode(it, v, args, kwargs, node):
     codec = _codec_of(it, args, kwargs)
     name = _codec_name(it, codec)
     it.event('codec', node, op='decode', value=v, codec=codec)
+    if _ascii_only(v) and (name is None and not args and 'encoding' not in kwargs or
+                           (name or '').lower().replace('-', '_') in ('utf_8', 'utf8', 'ascii', 'latin_1', 'latin1')):
+        it.op_safe(node, 'decode', 'argument is ASCII by construction (hex digits / numerals)')
+        return seqops.normalise(it, 'str', _conv_segs(it, v, 'str', name or 'ascii'), v.tags)
     if not v.is_lit() or name is None:
         if name is None or name.lower().replace('-', '_') not in {n.replace('-', '_') for n in TOTAL_DECODE}:
             it.may_raise(UnicodeDecodeError, node, f'decode({codec!r})', wire='wire' in value_tags(v))
@@ -964,6 +985,7 @@ def e_bytesio(it, args, kwargs, node):
             else:
                 src = seqops.Source(f'content({f.name})', 'bytes', data.length(), value_tags(data))
                 f.src = src
+    it.all_files.append(f)
     it.event('open', node, file=f, args=args, kwargs=kwargs)
     return f
 
